@@ -97,7 +97,9 @@ inline std::string proj(SoPlex& s, bool allowInternal = false)
    { J cfg; cfg.i("SCALER", s.intParam(SoPlex::SCALER)).i("SIMPLIFIER", s.intParam(SoPlex::SIMPLIFIER)).i("ALGORITHM", s.intParam(SoPlex::ALGORITHM))
         .i("REPRESENTATION", s.intParam(SoPlex::REPRESENTATION)).i("PRICER", s.intParam(SoPlex::PRICER)).i("RATIOTESTER", s.intParam(SoPlex::RATIOTESTER))
         .i("STARTER", s.intParam(SoPlex::STARTER)).i("SOLUTION_POLISHING", s.intParam(SoPlex::SOLUTION_POLISHING)).i("FACTOR_UPDATE_TYPE", s.intParam(SoPlex::FACTOR_UPDATE_TYPE))
-        .b("PERSISTENTSCALING", s.boolParam(SoPlex::PERSISTENTSCALING)); o.raw("cfg", cfg.str()); }
+        .b("PERSISTENTSCALING", s.boolParam(SoPlex::PERSISTENTSCALING)).b("LIFTING", s.boolParam(SoPlex::LIFTING)).b("EQTRANS", s.boolParam(SoPlex::EQTRANS))
+        .b("RATREC", s.boolParam(SoPlex::RATREC)).b("RATFAC", s.boolParam(SoPlex::RATFAC)).b("PRECISION_BOOSTING", s.boolParam(SoPlex::PRECISION_BOOSTING))
+        .b("ITERATIVE_REFINEMENT", s.boolParam(SoPlex::ITERATIVE_REFINEMENT)).i("SOLVEMODE", s.intParam(SoPlex::SOLVEMODE)); o.raw("cfg", cfg.str()); }
    o.i("status", (int)s.status()).b("hasSol", s.hasSol()).b("hasBasis", s.hasBasis());
    if(s.hasBasis())
    {
@@ -125,6 +127,7 @@ inline std::string proj(SoPlex& s, bool allowInternal = false)
    bool hasQ = Probe::hasRational(s);
    o.i("sync", sync).b("hasQ", hasQ);
    o.b("loaded", Probe::loaded(s)).b("scaled", Probe::scaled(s)).i("ratLU", Probe::ratLUStatus(s));
+   o.i("rep", (int)Probe::solver(s).rep());
    if(hasQ)
    {
       o.raw("q", projRational(s));
